@@ -710,8 +710,7 @@ def build_T6p(tree):
         'self._effective_slope_intercept is not None': 'has_si', 'self._effective_slope_intercept is None': 'not has_si',
         'self._effective_slope_intercept == (1.0, 0.0)': 'si_identity',
         'self._effective_window_center_width is not None': 'has_window', 'self._effective_window_center_width is None': 'not has_window',
-        "self.output_dtype.kind != 'f'": "out_kind != 'f'", "self.output_dtype.kind in ('u', 'i')": "out_kind in ('u', 'i')",
-        "self.input_dtype.kind in ('u', 'i')": "in_kind in ('u', 'i')",
+        'self.output_dtype.kind': 'out_kind', 'self.input_dtype.kind': 'in_kind',
         "np.can_cast(self.input_dtype, self.output_dtype, 'safe')": 'can_cast_safe',
         'self._color_type == _ImageColorType.COLOR': "color_type == 'COLOR'",
         'self._color_type == _ImageColorType.PALETTE_COLOR': "color_type == 'PALETTE_COLOR'",
